@@ -72,7 +72,7 @@ func (b *TemplateBuilder) buildConstPart() {
 	b.NTerminals = len(b.vnode.G.VtSet)
 	b.CodeHeader = b.vnode.GetCode()
 	b.CodeLast = b.vnode.GetCodeCopy()
-	for _, identifier := range b.vnode.GetIdsymtabl() {
+	for _, identifier := range b.vnode.SortedIdsymtabl() {
 		if identifier.IDTyp == parser.TERMID &&
 			!parser.TestPrefix(identifier.Name) {
 			b.ConstPart += fmt.Sprintf("const %s = %d\n", identifier.Name, identifier.Value)
